@@ -689,3 +689,36 @@ func init() {
 		Outside: []string{"non-ASCII runes", "positions not in the skeleton (e.g. compiled integrations)", "prepended or inner hostile bytes"},
 	})
 }
+
+func init() {
+	register(&PropSpec{
+		ID:   "C18",
+		Pkgs: []string{"./shovel", "./jrpc2"},
+		Runs: func(tier string) []HRun {
+			var rs []HRun
+			loads := [][2]int{{2, 2}, {4, 4}, {3, 2}, {4, 2}}
+			if tier == "thorough" {
+				loads = append(loads, [2]int{8, 8}, [2]int{6, 3}, [2]int{5, 4})
+			}
+			for _, l := range loads {
+				rs = append(rs, HRun{Pkg: "./shovel", Fn: "ZZ_C18_Load", Params: []int{l[0], l[1]}})
+			}
+			for a := 0; a <= 4; a++ {
+				for b := a; b <= 4; b++ {
+					rs = append(rs, HRun{Pkg: "./jrpc2", Fn: "ZZ_C18_Shared", Params: []int{a, b}})
+				}
+			}
+			rs = append(rs, HRun{Pkg: "./jrpc2", Fn: "ZZ_C18_Head", Params: []int{0}}, HRun{Pkg: "./jrpc2", Fn: "ZZ_C18_Head", Params: []int{1}})
+			return rs
+		},
+		Assumptions: []string{
+			"reduced form: goroutine bodies (errgroup closures) are executed sequentially by the engine while every memory access, lock acquire/release, fork, join, WaitGroup signal/wait is logged with its thread; for every pair of conflicting accesses of different threads z3 decides, over one integer order variable per event, whether some schedule consistent with program order, fork/join, lock mutual exclusion and read consistency (every other read sees the write it saw on the recorded path) leaves the two accesses unordered",
+			"control flow and addresses are those of the recorded symbolic paths; races that only appear on paths where a read observes another write are not found (conservative: never invents a race); byte buffers are one location each; atomics conflict only with plain accesses",
+			"scenarios: Task.load/insert partition goroutines inside one Converge step (batch x concurrency); two tasks with any two of five data plans fetching one cached range concurrently and consuming the blocks as Task.load and dig.Insert do (copy into an own slice, read fields); two tasks and the poller using the head cache concurrently, after a poller error or an announcement",
+			"a reported race is replayed by running the same harness natively with real goroutines under the Go race detector (go test -race); the race detector is used only as the replay oracle, never to decide",
+			"background head polling I/O, pgx, net/http internals are outside",
+		},
+		Bounds:  map[string]string{"quick": "load: (batch, conc) in {(2,2),(4,4),(3,2),(4,2)}; shared cache: 15 unordered plan pairs; head cache: 2 modes", "thorough": "adds (8,8),(6,3),(5,4)"},
+		Outside: []string{"schedules that change control flow", "more than two tasks on one client", "reorgs in flight"},
+	})
+}
